@@ -75,6 +75,14 @@ def run(repo: Repo, rep: Report):
 
                     it.hooks[("svg_pathops", "path_area")] = area
 
+                    def bbox(i, a, k):
+                        pts = [(args[j], args[j + 1]) for c_, args in i.iterate(a[0]) for j in range(0, len(args) - 1, 2)]
+                        if not pts:
+                            return (0, 0, 0, 0)
+                        return (min(p[0] for p in pts), min(p[1] for p in pts), max(p[0] for p in pts), max(p[1] for p in pts))
+
+                    it.hooks[("svg_pathops", "bounding_box")] = bbox
+
                 def fresh():
                     return ([new_path(repo, GEOMS[geom], display=display, fill=fill, stroke=stroke, opacity=o, fill_opacity=fo, stroke_opacity=so, stroke_width=sw, style="")], {})
 
